@@ -72,6 +72,42 @@ def esd(v, nd, ck):
     return "%.*f(%d)" % (nd, float(v), ck.rng.randrange(1, 30))
 
 
+def number_stream(ck):
+    """every spelling of a CIF number x standard-uncertainty suffix: the value read is the value of the number text.
+    Model: DS.CifNum.floatMatch (the regular expression of leading_float) through the driver; oracle: Python's float()."""
+    from diffpy.structure.parsers.p_cif import leading_float
+
+    signs = ["", "+", "-"]
+    mants = ["5", "5.", "5.0", ".5", "0.005", "12.345", "005", "0", "0.", ".0", "7.25000"]
+    exps = ["", "e-3", "E-3", "e3", "e+3", "E+03", "E0"]
+    sufs = ["", "(2)", "(12)", "(3)  "]
+    cases = [(sg + m + e, sf) for sg in signs for m in mants for e in exps for sf in sufs]
+    lines = ["cifnum.prefix " + w + sf.strip() for w, sf in cases]
+    try:
+        outs = common.driver(lines)
+    except common.DriverBroken:
+        outs = [None] * len(lines)
+    n = 0
+    for (w, sf), o in zip(cases, outs):
+        n += 1
+        text = w + sf
+        want = float(w)
+        repl = {"kind": "number", "text": text, "expected": want}
+        try:
+            got = leading_float(text)
+        except Exception as e:  # noqa: BLE001
+            ck.fail("number:%s" % type(e).__name__, "leading_float(%r) raised %r" % (text, e), dict(repl, observed=repr(e)))
+            continue
+        if got != want:
+            ck.fail("number:value", "leading_float(%r) = %r, the number written is %r" % (text, got, want), dict(repl, observed=got))
+        elif o is not None and o != w:
+            ck.fail("number:model", "model prefix of %r is %r, the implementation reads %r" % (text, o, w),
+                    dict(repl, model=o, theorem="correspondence stream cifnum.prefix"), no_failing_input=True)
+    ck.coverage["evaluations"] += n
+    ck.coverage["traces_validated_against_impl"] += n
+    ck.coverage["number_spellings"] = n
+
+
 def render(ck, sg, cr, sp):
     """CIF text for crystal `cr` in spelling `sp` (dict of choices)."""
     a, b, c, al, be, ga = cr["cell"]
@@ -289,6 +325,7 @@ def run(ck):
     rep = tables.main(gen, os.path.join(gen, "tables_report.json"))
     translated = {s["number"] for s in rep["settings"]}
     ok, info = ck.lean_obligations("DS.Props.C07")
+    tie_ok, tie_info = ck.source_tie("DS.Props.SrcCif")   # the number reader the esd theorem is about
     import diffpy.structure.spacegroups as S
     from diffpy.structure.parsers import getParser
     from diffpy.structure.spacegroups import GetSpaceGroup
@@ -300,6 +337,7 @@ def run(ck):
         pick = [g for i, g in enumerate(sgl) if (i + ck.seed) % 4 == 0]
     else:
         pick = sgl
+    number_stream(ck)
     lines, meta = [], []
     nsp = 0
     spell_count = {}
@@ -405,6 +443,7 @@ def run(ck):
                        "tensors given in the CIF are symmetry-allowed (valid CIF); a tensor that violates the site symmetry is projected by the reader (C06)",
                        "coordinates are printed with 10 decimals; comparison tolerance 2e-7"]
     ck.coverage["trusted_base"] += ["translate/tables.py", "harness/strata.py (generator only)", "CIF renderer in harness/c07.py"]
+    ck.tie_verdict(tie_ok, tie_info, "p_cif.py leading_float")
     if not ok and not ck.violations:
         ck.fail("lean-build", "Lean obligations of C07 no longer check: %r" % info["failed_modules"],
                 {"kind": "proof-obligation", "theorem": info["failed_modules"], "errors": info["errors"]}, no_failing_input=True)
@@ -457,6 +496,16 @@ def replay(path):
     r = json.load(open(path))
     from diffpy.structure.parsers import getParser
 
+    if r.get("kind") == "number":
+        from diffpy.structure.parsers.p_cif import leading_float
+
+        try:
+            got = leading_float(r["text"])
+        except Exception as e:  # noqa: BLE001
+            print("leading_float(%r) raises %r" % (r["text"], e))
+            return 1
+        print("leading_float(%r) = %r, written value %r" % (r["text"], got, r["expected"]))
+        return 0 if got == r["expected"] else 1
     if r.get("stream") == "reuse":
         import shutil
         import tempfile
